@@ -1,56 +1,111 @@
 /-
-C17, lazy statics: `World.lazyGet` (`Lazy::get` + a read of the cell inside the value), the main
-thread's epilogue (`lazy_statics.drop()`), `World.init`.
+C17, lazy statics: the staged operation `World.lazyStage` (`Lazy::get` + a read of the cell inside the
+value; the initialiser has a scheduling point), its parts `World.lazyStatics`, `World.lazyRead`,
+`World.lazyInitFinish`, the main thread's epilogue (`lazy_statics.drop()`), `World.init`.
 -/
 import LoomVerif.Proofs.WorldBasics
 import LoomVerif.Proofs.SyncRunOp
 import LoomVerif.Proofs.C12VV
 import LoomVerif.Proofs.InterpMaxTh
+import LoomVerif.Proofs.C08Notify
 
 namespace LoomVerif
 namespace C17
 open World
 
-/-- `try_get` (`sync_load(Acquire)`) + `cell.with(|p| *p)` on the value `sv` -/
-def lazyRead (w : World) (sv : LazyVal) : Except Panic (World × Int) := do
-  let w := w.setThs (w.ths.syncLoad sv.sync .acq)
-  let w := w.sync
-  let cs ← w.getCell sv.cell
-  if cs.isWriting then throw .cellBusy
-  if (w.ths.caus.ahead cs.writeAccess).isSome then throw (.causality 9)
-  let w := w.setObj sv.cell (.cell { cs with readAccess := cs.readAccess.join w.ths.caus })
-  pure (w, (sv.inst : Int) * 100 + cs.value)
+/-! ### `lazyStatics`, the staged operation `lazyStage` -/
 
-theorem lazyGet_shutdown {w : World} (z : Nat) (hs : w.exec.lazyStatics = none) :
-    w.lazyGet z = .error .lazyShutdown := by
-  unfold World.lazyGet
-  simp only [hs]; rfl
+theorem lazyStatics_none {w : World} (hs : w.exec.lazyStatics = none) :
+    w.lazyStatics = .error .lazyShutdown := by
+  unfold World.lazyStatics; rw [hs]; rfl
 
-theorem lazyGet_found {w : World} {z : Nat} {l : List (Nat × LazyVal)} {sv : LazyVal}
-    (hs : w.exec.lazyStatics = some l) (hz : l.lookup z = some sv) :
-    w.lazyGet z = lazyRead w sv := by
-  unfold World.lazyGet
-  simp only [hs, pure_bind, hz]; rfl
+theorem lazyStatics_some {w : World} {l : List (Nat × LazyVal)} (hs : w.exec.lazyStatics = some l) :
+    w.lazyStatics = .ok l := by
+  unfold World.lazyStatics; rw [hs]; rfl
+
+/-- the world in which the initialiser of `z` starts: its run is counted, it draws the instance id -/
+def bumped (w : World) (z : Nat) : World :=
+  { w with lazyInits := w.lazyInits.set z (w.lazyInits.getD z 0 + 1) }
+
+/-- stage 0 after `Set::drop`: "attempted to access lazy_static during shutdown" -/
+theorem lazyStage0_shutdown {w : World} {c : TCtl} (z : Nat) (hc : c.stage = 0)
+    (hs : w.exec.lazyStatics = none) : w.lazyStage c z = .error .lazyShutdown := by
+  unfold World.lazyStage
+  simp only [hc, lazyStatics_none hs]; rfl
+
+/-- stage 0, the static is registered: `try_get` succeeds, the cell in the value is read, the operation
+completes -/
+theorem lazyStage0_found {w : World} {c : TCtl} {z : Nat} {l : List (Nat × LazyVal)} {sv : LazyVal}
+    (hc : c.stage = 0) (hs : w.exec.lazyStatics = some l) (hz : l.lookup z = some sv) :
+    w.lazyStage c z = (w.lazyRead sv).map fun r => r.1.complete (.val r.2) := by
+  unfold World.lazyStage
+  simp only [hc, lazyStatics_some hs, hz, bind, Except.bind, pure, Except.pure]
+  cases w.lazyRead sv <;> rfl
+
+/-- stage 0, the static is not registered, the program declares no atomic: the initialiser runs to its end
+in this stage (instance id `lazyInits[z] + 1`) -/
+theorem lazyStage0_init_now {w : World} {c : TCtl} {z : Nat} {l : List (Nat × LazyVal)}
+    (hc : c.stage = 0) (hs : w.exec.lazyStatics = some l) (hz : l.lookup z = none)
+    (hx : w.cfg.nAtomics = 0) :
+    w.lazyStage c z =
+      ((bumped w z).lazyInitFinish z (w.lazyInits.getD z 0 + 1)).map
+        fun r => r.1.complete (.val r.2) := by
+  unfold World.lazyStage
+  have hx2 : w.prog.cfg.nAtomics = 0 := hx
+  simp only [hc, lazyStatics_some hs, hz, bind, Except.bind, pure, Except.pure, World.cfg, hx2,
+    beq_self_eq_true, if_true, bumped]
+  generalize World.lazyInitFinish _ z _ = r
+  cases r <;> rfl
+
+/-- stage 0, the static is not registered, the program declares an atomic: the initialiser starts, draws
+its instance id and reaches its scheduling point (`x0.fetch_add(1, Relaxed)`); the stage it continues with
+IS the instance id -/
+theorem lazyStage0_init_branch {w : World} {c : TCtl} {z : Nat} {l : List (Nat × LazyVal)}
+    (hc : c.stage = 0) (hs : w.exec.lazyStatics = some l) (hz : l.lookup z = none)
+    (hx : w.cfg.nAtomics ≠ 0) :
+    w.lazyStage c z =
+      (bumped w z).primStart 0 (.rmw (.add 1) .rlx .rlx) (w.lazyInits.getD z 0 + 1) := by
+  unfold World.lazyStage
+  have hx2 : (w.prog.cfg.nAtomics == 0) = false := by
+    have : w.prog.cfg.nAtomics ≠ 0 := hx
+    simpa using this
+  simp only [hc, lazyStatics_some hs, hz, bind, Except.bind, pure, Except.pure, World.cfg, hx2,
+    Bool.false_eq_true, if_false, bumped]
+
+/-- a later stage `id`: the effect of the `fetch_add`, then the rest of the initialiser with instance id
+`id` -/
+theorem lazyStage_later {w : World} {c : TCtl} (z : Nat) (hc : c.stage ≠ 0) :
+    w.lazyStage c z = (do
+      let (w1, _) ← w.primEffect 0 (.rmw (.add 1) .rlx .rlx)
+      let (w2, v) ← w1.lazyInitFinish z c.stage
+      pure (w2.complete (.val v))) := by
+  unfold World.lazyStage
+  split
+  · next h0 => exact absurd h0 hc
+  · rfl
+
+/-! ### the rest of the initialiser: `lazyInitFinish` -/
 
 /-- the fresh cell the initialiser creates -/
 def initCell (w : World) : CellSt := { readAccess := w.ths.caus, writeAccess := w.ths.caus }
 
-/-- the world in which the initialiser writes the cell: counter bumped, cell pushed, `synchronize` -/
-def initW3 (w : World) (z : Nat) : World :=
-  (({ w with lazyInits := w.lazyInits.set z (w.lazyInits.getD z 0 + 1) } : World).pushObj
-    (.cell (initCell w))).1.sync
+/-- the world in which the initialiser writes the cell: cell pushed, `synchronize` -/
+def initW3 (w : World) : World := (w.pushObj (.cell (initCell w))).1.sync
 
-/-- the `StaticValue` the initialiser publishes -/
-def initVal (w : World) (z : Nat) : LazyVal :=
-  { sync := (initW3 w z).ths.syncStore Sync.new .ar, inst := w.lazyInits.getD z 0 + 1,
-    cell := w.exec.objs.length }
+/-- the world after the initialiser wrote its cell (before the second `try_get`) -/
+def initWritten (w : World) (z : Nat) : World :=
+  (initW3 w).setObj w.exec.objs.length
+    (.cell { initCell w with
+      writeAccess := (initCell w).writeAccess.join (initW3 w).ths.caus, value := 40 + z })
 
-/-- the world after `init_static` -/
-def initWorld (w : World) (z : Nat) (l : List (Nat × LazyVal)) : World :=
-  let w3 := initW3 w z
-  let w4 := w3.setObj w.exec.objs.length
-    (.cell { initCell w with writeAccess := (initCell w).writeAccess.join w3.ths.caus, value := 40 + z })
-  { w4 with exec := { w4.exec with lazyStatics := some ((z, initVal w z) :: l) } }
+/-- the `StaticValue` an initialiser with instance id `id` publishes if it wins -/
+def initVal (w : World) (id : Nat) : LazyVal :=
+  { sync := (initW3 w).ths.syncStore Sync.new .ar, inst := id, cell := w.exec.objs.length }
+
+/-- the world after `init_static` by the initialiser with instance id `id` -/
+def initWorld (w : World) (z id : Nat) (l : List (Nat × LazyVal)) : World :=
+  { initWritten w z with
+    exec := { (initWritten w z).exec with lazyStatics := some ((z, initVal w id) :: l) } }
 
 theorem caus_le_inc (ths : Threads) : ths.caus.le ths.activeCausalityInc.caus := by
   unfold Threads.activeCausalityInc Threads.modifyActive Threads.caus Threads.activeT
@@ -59,33 +114,59 @@ theorem caus_le_inc (ths : Threads) : ths.caus.le ths.activeCausalityInc.caus :=
   · exact C12.VV.le_inc _ _
   · exact C12.VV.le_refl _
 
-theorem initW3_objs (w : World) (z : Nat) :
-    (initW3 w z).exec.objs = w.exec.objs ++ [.cell (initCell w)] := rfl
+theorem initW3_objs (w : World) :
+    (initW3 w).exec.objs = w.exec.objs ++ [.cell (initCell w)] := rfl
 
-theorem initW3_getCell (w : World) (z : Nat) :
-    (initW3 w z).getCell w.exec.objs.length = .ok (initCell w) := by
+theorem initW3_getCell (w : World) :
+    (initW3 w).getCell w.exec.objs.length = .ok (initCell w) := by
   unfold World.getCell
   rw [initW3_objs]
   simp
 
-theorem initW3_ahead (w : World) (z : Nat) :
-    ((initW3 w z).ths.caus.ahead w.ths.caus).isSome = false :=
+theorem initW3_ahead (w : World) :
+    ((initW3 w).ths.caus.ahead w.ths.caus).isSome = false :=
   C12.VV.ahead_none (caus_le_inc w.ths)
 
-theorem lazyGet_init {w : World} {z : Nat} {l : List (Nat × LazyVal)}
-    (hs : w.exec.lazyStatics = some l) (hz : l.lookup z = none) :
-    w.lazyGet z = lazyRead (initWorld w z l) (initVal w z) := by
-  unfold World.lazyGet
-  simp only [hs, pure_bind, hz]
-  show ((initW3 w z).getCell w.exec.objs.length >>= _) = _
+theorem initWritten_statics (w : World) (z : Nat) :
+    (initWritten w z).exec.lazyStatics = w.exec.lazyStatics := rfl
+
+/-- the initialiser's own cell accesses never fail; what remains is the second `try_get` -/
+theorem lazyInitFinish_eq (w : World) (z id : Nat) :
+    w.lazyInitFinish z id = (do
+      let statics ← (initWritten w z).lazyStatics
+      match statics.lookup z with
+      | some sv => (initWritten w z).lazyRead sv
+      | none => (initWorld w z id statics).lazyRead (initVal w id)) := by
+  unfold World.lazyInitFinish
+  show ((initW3 w).getCell w.exec.objs.length >>= _) = _
   rw [initW3_getCell]
-  have hn : ¬ ((initW3 w z).ths.caus.ahead w.ths.caus).isSome = true := by
+  have hn : ¬ ((initW3 w).ths.caus.ahead w.ths.caus).isSome = true := by
     rw [initW3_ahead]; exact Bool.false_ne_true
-  show (if ((initW3 w z).ths.caus.ahead w.ths.caus).isSome = true then _ else _) = _
+  show (if ((initW3 w).ths.caus.ahead w.ths.caus).isSome = true then _ else _) = _
   rw [if_neg hn]
-  show (if ((initW3 w z).ths.caus.ahead w.ths.caus).isSome = true then _ else _) = _
+  show (if ((initW3 w).ths.caus.ahead w.ths.caus).isSome = true then _ else _) = _
   rw [if_neg hn]
   rfl
+
+/-- after `Set::drop` the second `try_get` panics -/
+theorem lazyInitFinish_shutdown {w : World} (z id : Nat) (hs : w.exec.lazyStatics = none) :
+    w.lazyInitFinish z id = .error .lazyShutdown := by
+  rw [lazyInitFinish_eq, lazyStatics_none (w := initWritten w z) hs]; rfl
+
+/-- another thread registered a value for `z` meanwhile: ours is dropped, nothing is registered, the
+registered value is read -/
+theorem lazyInitFinish_found {w : World} {z : Nat} (id : Nat) {l : List (Nat × LazyVal)} {sv : LazyVal}
+    (hs : w.exec.lazyStatics = some l) (hz : l.lookup z = some sv) :
+    w.lazyInitFinish z id = (initWritten w z).lazyRead sv := by
+  rw [lazyInitFinish_eq, lazyStatics_some (w := initWritten w z) hs]
+  simp only [bind, Except.bind, hz]
+
+/-- no value is registered for `z`: `init_static` + `sync_store(AcqRel)`, then the value is read -/
+theorem lazyInitFinish_init {w : World} {z : Nat} (id : Nat) {l : List (Nat × LazyVal)}
+    (hs : w.exec.lazyStatics = some l) (hz : l.lookup z = none) :
+    w.lazyInitFinish z id = (initWorld w z id l).lazyRead (initVal w id) := by
+  rw [lazyInitFinish_eq, lazyStatics_some (w := initWritten w z) hs]
+  simp only [bind, Except.bind, hz]
 
 theorem getCell_ok {w : World} {o : Nat} {cs : CellSt} (h : w.getCell o = .ok cs) :
     w.exec.objs[o]? = some (.cell cs) := by
@@ -97,11 +178,11 @@ def readWorld (w : World) (sv : LazyVal) (cs : CellSt) : World :=
     (.cell { cs with readAccess :=
       cs.readAccess.join (w.setThs (w.ths.syncLoad sv.sync .acq)).sync.ths.caus })
 
-theorem lazyRead_ok {w w' : World} {sv : LazyVal} {v : Int} (h : lazyRead w sv = .ok (w', v)) :
+theorem lazyRead_ok {w w' : World} {sv : LazyVal} {v : Int} (h : w.lazyRead sv = .ok (w', v)) :
     ∃ cs, w.exec.objs[sv.cell]? = some (.cell cs) ∧ cs.isWriting = false ∧
       ((w.ths.syncLoad sv.sync .acq).activeCausalityInc.caus.ahead cs.writeAccess).isSome = false ∧
       v = (sv.inst : Int) * 100 + cs.value ∧ w' = readWorld w sv cs := by
-  unfold lazyRead at h
+  unfold World.lazyRead at h
   simp only [bind, Except.bind, pure, Except.pure] at h
   split at h
   · cases h
@@ -121,8 +202,8 @@ theorem lazyRead_ok {w w' : World} {sv : LazyVal} {v : Int} (h : lazyRead w sv =
 theorem lazyRead_of {w : World} {sv : LazyVal} {cs : CellSt}
     (hc : w.exec.objs[sv.cell]? = some (.cell cs)) (hw : cs.isWriting = false)
     (ha : ((w.ths.syncLoad sv.sync .acq).activeCausalityInc.caus.ahead cs.writeAccess).isSome = false) :
-    lazyRead w sv = .ok (readWorld w sv cs, (sv.inst : Int) * 100 + cs.value) := by
-  unfold lazyRead
+    w.lazyRead sv = .ok (readWorld w sv cs, (sv.inst : Int) * 100 + cs.value) := by
+  unfold World.lazyRead
   have hg : (w.setThs (w.ths.syncLoad sv.sync .acq)).sync.getCell sv.cell = .ok cs := by
     unfold World.getCell
     show (match w.exec.objs[sv.cell]? with | some (.cell a) => _ | _ => _) = _
@@ -162,34 +243,42 @@ theorem readWorld_caus (w : World) (sv : LazyVal) (cs : CellSt)
 
 /-! ### the initialiser -/
 
-theorem initWorld_statics (w : World) (z : Nat) (l : List (Nat × LazyVal)) :
-    (initWorld w z l).exec.lazyStatics = some ((z, initVal w z) :: l) := rfl
-theorem initWorld_lazyInits (w : World) (z : Nat) (l : List (Nat × LazyVal)) :
-    (initWorld w z l).lazyInits = w.lazyInits.set z (w.lazyInits.getD z 0 + 1) := rfl
-theorem initWorld_ths (w : World) (z : Nat) (l : List (Nat × LazyVal)) :
-    (initWorld w z l).ths = w.ths.activeCausalityInc := rfl
-theorem initWorld_objs (w : World) (z : Nat) (l : List (Nat × LazyVal)) :
-    (initWorld w z l).exec.objs = w.exec.objs ++
+theorem initWorld_statics (w : World) (z id : Nat) (l : List (Nat × LazyVal)) :
+    (initWorld w z id l).exec.lazyStatics = some ((z, initVal w id) :: l) := rfl
+theorem initWorld_lazyInits (w : World) (z id : Nat) (l : List (Nat × LazyVal)) :
+    (initWorld w z id l).lazyInits = w.lazyInits := rfl
+theorem initWorld_ths (w : World) (z id : Nat) (l : List (Nat × LazyVal)) :
+    (initWorld w z id l).ths = w.ths.activeCausalityInc := rfl
+theorem initWritten_ths (w : World) (z : Nat) :
+    (initWritten w z).ths = w.ths.activeCausalityInc := rfl
+theorem initWritten_lazyInits (w : World) (z : Nat) : (initWritten w z).lazyInits = w.lazyInits := rfl
+theorem initWritten_objs (w : World) (z : Nat) :
+    (initWritten w z).exec.objs = w.exec.objs ++
       [.cell { initCell w with
         writeAccess := w.ths.caus.join w.ths.activeCausalityInc.caus, value := 40 + z }] := by
   show (w.exec.objs ++ [Obj.cell (initCell w)]).set w.exec.objs.length _ = _
   simp
   rfl
+theorem initWorld_objs (w : World) (z id : Nat) (l : List (Nat × LazyVal)) :
+    (initWorld w z id l).exec.objs = w.exec.objs ++
+      [.cell { initCell w with
+        writeAccess := w.ths.caus.join w.ths.activeCausalityInc.caus, value := 40 + z }] :=
+  initWritten_objs w z
 
 /-- the published clock is above the initialiser's causality -/
-theorem initVal_hb (w : World) (z : Nat) : w.ths.caus.le (initVal w z).sync.hb :=
+theorem initVal_hb (w : World) (id : Nat) : w.ths.caus.le (initVal w id).sync.hb :=
   C12.VV.le_trans (caus_le_inc w.ths) (C12.VV.le_join_right _ _)
 
-/-- the initialising access always succeeds (the initialiser's own write happens-before its
-read) and returns instance `lazyInits[z] + 1`, content `40 + z` -/
-theorem lazyGet_init_ok {w : World} {z : Nat} {l : List (Nat × LazyVal)}
+/-- the registering initialiser always succeeds (its own write happens-before its read) and returns its
+instance `id`, content `40 + z` -/
+theorem lazyInitFinish_init_ok {w : World} {z : Nat} (id : Nat) {l : List (Nat × LazyVal)}
     (hs : w.exec.lazyStatics = some l) (hz : l.lookup z = none)
     (hact : w.tid < w.ths.threads.length) :
-    w.lazyGet z = .ok (readWorld (initWorld w z l) (initVal w z)
+    w.lazyInitFinish z id = .ok (readWorld (initWorld w z id l) (initVal w id)
         { initCell w with
           writeAccess := w.ths.caus.join w.ths.activeCausalityInc.caus, value := 40 + z },
-      ((w.lazyInits.getD z 0 + 1 : Nat) : Int) * 100 + (40 + z)) := by
-  rw [lazyGet_init hs hz]
+      ((id : Nat) : Int) * 100 + (40 + z)) := by
+  rw [lazyInitFinish_init id hs hz]
   refine lazyRead_of (cs := { initCell w with
       writeAccess := w.ths.caus.join w.ths.activeCausalityInc.caus, value := 40 + z }) ?_ rfl ?_
   · rw [initWorld_objs]
@@ -201,25 +290,134 @@ theorem lazyGet_init_ok {w : World} {z : Nat} {l : List (Nat × LazyVal)}
     have hA : WB.ActiveOk w.ths.activeCausalityInc := by
       unfold WB.ActiveOk Threads.activeCausalityInc Threads.modifyActive
       rw [WB.length_modify, WB.activeId_modify]; exact hact
-    have h1 : (w.ths.activeCausalityInc.syncLoad (initVal w z).sync .acq).caus =
-        w.ths.activeCausalityInc.caus.join (initVal w z).sync.hb := by
+    have h1 : (w.ths.activeCausalityInc.syncLoad (initVal w id).sync .acq).caus =
+        w.ths.activeCausalityInc.caus.join (initVal w id).sync.hb := by
       rw [WB.caus_syncLoad hA]; rfl
-    have h2 := caus_le_inc (w.ths.activeCausalityInc.syncLoad (initVal w z).sync .acq)
+    have h2 := caus_le_inc (w.ths.activeCausalityInc.syncLoad (initVal w id).sync .acq)
     rw [h1] at h2
     refine C12.VV.le_trans ?_ h2
     exact C12.VV.join_le
       (C12.VV.le_trans (caus_le_inc w.ths) (C12.VV.le_join_left _ _)) (C12.VV.le_join_left _ _)
 
+/-! ### registered entries are never replaced -/
+
+/-- the statics table after a step is the table before it, or the table before it with ONE new entry for a
+key `z` that had none -/
+def StaticsGrow (z : Nat) (s s' : Option (List (Nat × LazyVal))) : Prop :=
+  s' = s ∨ ∃ l sv, s = some l ∧ l.lookup z = none ∧ s' = some ((z, sv) :: l)
+
+theorem StaticsGrow.keeps {z : Nat} {s s' : Option (List (Nat × LazyVal))} (h : StaticsGrow z s s')
+    {l : List (Nat × LazyVal)} (hs : s = some l) :
+    ∃ l', s' = some l' ∧ ∀ z' sv, l.lookup z' = some sv → l'.lookup z' = some sv := by
+  rcases h with rfl | ⟨l0, sv0, e, hz, rfl⟩
+  · exact ⟨l, hs, fun _ _ h => h⟩
+  · rw [hs] at e; cases e
+    refine ⟨_, rfl, fun z' sv h => ?_⟩
+    by_cases e : z' = z
+    · subst e; rw [hz] at h; cases h
+    · have : (z' == z) = false := by simpa using e
+      simp only [List.lookup, this]; exact h
+
+theorem lazyRead_statics {w w' : World} {sv : LazyVal} {v : Int} (h : w.lazyRead sv = .ok (w', v)) :
+    w'.exec.lazyStatics = w.exec.lazyStatics ∧ w'.lazyInits = w.lazyInits := by
+  obtain ⟨cs, _, _, _, _, rfl⟩ := lazyRead_ok h
+  exact ⟨rfl, rfl⟩
+
+/-- `lazyInitFinish` never replaces a registered entry -/
+theorem lazyInitFinish_statics {w w' : World} {z id : Nat} {v : Int}
+    (h : w.lazyInitFinish z id = .ok (w', v)) :
+    StaticsGrow z w.exec.lazyStatics w'.exec.lazyStatics ∧ w'.lazyInits = w.lazyInits := by
+  rcases hs : w.exec.lazyStatics with _ | l
+  · rw [lazyInitFinish_shutdown z id hs] at h; cases h
+  · rcases hz : l.lookup z with _ | sv
+    · rw [lazyInitFinish_init id hs hz] at h
+      obtain ⟨e1, e2⟩ := lazyRead_statics h
+      exact ⟨.inr ⟨l, initVal w id, rfl, hz, by rw [e1]; rfl⟩, by rw [e2]; rfl⟩
+    · rw [lazyInitFinish_found id hs hz] at h
+      obtain ⟨e1, e2⟩ := lazyRead_statics h
+      exact ⟨.inl (by rw [e1, initWritten_statics, hs]), by rw [e2]; rfl⟩
+
+/-! ### the scheduling point of the initialiser keeps the table -/
+
+theorem schedule_statics {e : Exec} {p : Bool} {r : Exec × Bool} (h : e.schedule p = .ok r) :
+    r.1.lazyStatics = e.lazyStatics := by
+  unfold Exec.schedule at h
+  mt_split h
+  all_goals first
+    | (cases h; done)
+    | (cases h; rfl)
+
+theorem branch_statics {w w' : World} {o : Nat} {a : Action} {b : Bool}
+    (h : w.branch o a b = .ok w') :
+    w'.exec.lazyStatics = w.exec.lazyStatics ∧ w'.lazyInits = w.lazyInits := by
+  unfold World.branch at h
+  simp only [bind, Except.bind, pure, Except.pure] at h
+  split at h
+  · cases h
+  · next r hr =>
+    cases h
+    have := schedule_statics hr
+    exact ⟨this, rfl⟩
+
+theorem primStart_statics {w w' : World} {x : Nat} {p : Prim} {next : Nat}
+    (h : w.primStart x p next = .ok w') :
+    w'.exec.lazyStatics = w.exec.lazyStatics ∧ w'.lazyInits = w.lazyInits := by
+  unfold World.primStart at h
+  split at h
+  · dsimp only at h
+    have := branch_statics h
+    exact this
+  · cases h; exact ⟨rfl, rfl⟩
+
+theorem primEffect_statics {w : World} {x : Nat} {p : Prim} {r : World × Ret}
+    (h : w.primEffect x p = .ok r) :
+    r.1.exec.lazyStatics = w.exec.lazyStatics ∧ r.1.lazyInits = w.lazyInits := by
+  unfold World.primEffect at h
+  mt_split h
+  all_goals first
+    | (cases h; done)
+    | (cases h; exact ⟨rfl, rfl⟩)
+
+/-- every stage of `lazy z`: the table keeps its entries; at most one entry, for `z`, is added, and only
+if `z` had none -/
+theorem lazyStage_statics {w w' : World} {c : TCtl} {z : Nat} (h : w.lazyStage c z = .ok w') :
+    StaticsGrow z w.exec.lazyStatics w'.exec.lazyStatics := by
+  by_cases hc : c.stage = 0
+  · rcases hs : w.exec.lazyStatics with _ | l
+    · rw [lazyStage0_shutdown z hc hs] at h; cases h
+    · rcases hz : l.lookup z with _ | sv
+      · by_cases hx : w.cfg.nAtomics = 0
+        · rw [lazyStage0_init_now hc hs hz hx] at h
+          obtain ⟨⟨w1, v⟩, h1, h2⟩ := C08.map_ok h
+          cases h2
+          have := (lazyInitFinish_statics h1).1
+          rw [show (bumped w z).exec.lazyStatics = some l from hs] at this
+          exact this
+        · rw [lazyStage0_init_branch hc hs hz hx] at h
+          exact .inl ((primStart_statics h).1.trans hs)
+      · rw [lazyStage0_found hc hs hz] at h
+        obtain ⟨⟨w1, v⟩, h1, h2⟩ := C08.map_ok h
+        cases h2
+        exact .inl ((lazyRead_statics h1).1.trans hs)
+  · rw [lazyStage_later z hc] at h
+    obtain ⟨⟨w1, r⟩, h1, h2⟩ := WB.bind_eq_ok h
+    obtain ⟨⟨w2, v⟩, h3, h4⟩ := WB.bind_eq_ok h2
+    cases h4
+    have e1 := (primEffect_statics h1).1
+    have := (lazyInitFinish_statics h3).1
+    rw [show w1.exec.lazyStatics = w.exec.lazyStatics from e1] at this
+    exact this
+
 /-! ### `World.init` -/
 
 theorem init_facts {prog : Prog} {e : Exec} {w : World} (h : World.init prog e = .ok w) :
     w.exec.lazyStatics = e.lazyStatics ∧ w.exec.threads = e.threads ∧ w.lazyInits = [0, 0] ∧
-    w.tlsInits = [0, 0] ∧ w.tlsDrops = [0, 0] ∧ w.tlsObs = [0, 0] ∧ w.ctl = [{}] := by
+    w.tlsInits = [0, 0] ∧ w.tlsDrops = [0, 0] ∧ w.tlsObs = [0, 0] ∧ w.ctl = [{}] ∧ w.prog = prog := by
   unfold World.init at h
   simp only [Except.bind_eq_ok'] at h
   obtain ⟨_, _, _, _, _, _, _, _, _, _, _, _, _, _, _, _, h⟩ := h
   cases h
-  exact ⟨rfl, rfl, rfl, rfl, rfl, rfl, rfl⟩
+  exact ⟨rfl, rfl, rfl, rfl, rfl, rfl, rfl, rfl⟩
 
 end C17
 end LoomVerif
